@@ -170,8 +170,8 @@ InSparse(k, off, stride) == k >= off /\ (k - off) % stride = 0
 Sparse(off, stride, salt) ==
   /\ n < MaxLen /\ ~Refused
   /\ work' = [k \in Keys |-> IF InSparse(k, off, stride) THEN ValOf(k, salt) ELSE work[k]]
-  /\ dirty' = TRUE
-  /\ pend' = Append(pend, <<"p", off, stride, salt>>)
+  /\ dirty' = (dirty \/ off <= NK)            \* off > NK: no key is written, the session stays as it is
+  /\ pend' = IF off <= NK THEN Append(pend, <<"p", off, stride, salt>>) ELSE pend
   /\ UNCHANGED <<saved, exists, first, latest, ver, poisoned, readers, opt, shk>>
   /\ Log([act |-> "Sparse", off |-> off, stride |-> stride, salt |-> salt,
           reply |-> Cardinality({k \in Keys : InSparse(k, off, stride) /\ work[k] # 0})])
